@@ -3,6 +3,7 @@ pub mod maps;
 pub mod modules;
 pub mod sem;
 pub mod stack;
+pub mod trace;
 pub mod values;
 pub mod vm;
 
@@ -22,6 +23,7 @@ pub fn all() -> Vec<Box<dyn Engine>> {
         Box::new(vm::VmEngine),
         Box::new(vm::GcEngine),
         Box::new(sem::SemEngine),
+        Box::new(trace::TraceEngine),
     ]
 }
 
